@@ -65,14 +65,35 @@ func TestVerifC05PNSpace(t *testing.T) {
 			var sig, detail string
 			var trace []string
 			skips, acks, ackErrs := 0, 0, 0
+			// a client that starts with 0-RTT: its 0-RTT and 1-RTT packets share the application data number
+			// space; when the server rejects 0-RTT the 0-RTT packets are dropped (DropPackets), the numbers
+			// they used stay used
+			zeroRTTUntil, rejected := -1, false
+			if pers == protocol.PerspectiveClient && !long && rng.IntN(2) == 0 {
+				zeroRTTUntil = 3 + rng.IntN(40)
+				rejected = rng.IntN(3) != 0
+			}
 			for step := 0; step < ops && sig == ""; step++ {
 				sp := 2
 				if !long && rng.IntN(3) == 0 {
 					sp = rng.IntN(3)
 				}
 				lvl := levels[sp]
+				early := step < zeroRTTUntil
+				if early && sp == 2 {
+					lvl = protocol.Encryption0RTT
+				}
+				if step == zeroRTTUntil {
+					if rejected {
+						sph.DropPackets(protocol.Encryption0RTT, now)
+						l.Count("pnspace_0rtt_rejections", 1)
+					}
+					if len(trace) < 600 {
+						trace = append(trace, fmt.Sprintf("0-RTT phase ends (rejected=%v)", rejected))
+					}
+				}
 				now = now.Add(1000 * 50)
-				if rng.IntN(100) < ackProb && len(sent[sp]) > 0 {
+				if rng.IntN(100) < ackProb && len(sent[sp]) > 0 && !(early && sp == 2) {
 					pn := sent[sp][len(sent[sp])-1-rng.IntN(min(len(sent[sp]), 4))]
 					if pn <= largestAcked[sp] {
 						continue
